@@ -19,16 +19,49 @@ ROOT = "gluon::compiler_pipeline::Module"
 BAD_ATTR = re.compile(r"\b(skip_serializing_if|skip_serializing|skip_deserializing|skip|default)\b")
 
 
+# hand-written impls that only add sharing around a derived payload: descend through them
+TRANSPARENT = {"gluon_base::types::ArcType": "shared-node wrapper around the derived `Type` tree",
+               "gluon_base::types::ArcTypeInner": "payload holder of ArcType"}
+
+SER_TRAITS = ("serde_state::ser::SerializeState", "serde_core::ser::Serialize", "serde::ser::Serialize")
+DE_TRAITS = ("serde_state::de::DeserializeState", "serde_core::de::Deserialize", "serde::de::Deserialize")
+
+
+def _serde_impls(fb):
+    """{adt path: {'ser': 'derived'|'manual', 'de': ...}} for workspace ADTs"""
+    out = {}
+    for im in fb.impls:
+        tr = im.get("trait") or ""
+        if tr not in SER_TRAITS + DE_TRAITS:
+            continue
+        row = im["_crate"].types[im["self"]]
+        if row.get("k") != "adt":
+            continue
+        derived = im.get("from_expansion") and "::_::" in im["path"] or "::_#" in im["path"] and im.get("from_expansion")
+        kind = "derived" if derived else "manual"
+        d = out.setdefault(row["adt"], {})
+        d["ser" if tr in SER_TRAITS else "de"] = kind
+    return out
+
+
 def _type_graph(fb, root):
-    """workspace ADT paths reachable from root through field types (following generic arguments)"""
+    """workspace ADTs whose *fields* travel in a precompiled module: start at root, descend through the fields of types
+    with a derived (de)serialiser (skipping nothing: skipped fields are what R8a reports) and through the generic
+    arguments of foreign containers; a type with a hand-written serialiser is a leaf (its wire format is its own)."""
+    impls = _serde_impls(fb)
     seen = {}
+    leaves = {}
     work = [root]
     while work:
         p = work.pop()
-        if p in seen:
+        if p in seen or p in leaves:
             continue
         a = fb.adts.get(p)
         if a is None:
+            continue
+        kinds = impls.get(p, {})
+        if kinds.get("ser") != "derived" and kinds.get("de") != "derived" and p not in TRANSPARENT:
+            leaves[p] = kinds
             continue
         seen[p] = a
         types = a["_crate"].types
@@ -37,13 +70,19 @@ def _type_graph(fb, root):
             if depth > 8:
                 return
             if row.get("k") == "adt":
-                work.append(row["adt"])
+                if row["adt"] in fb.adts:
+                    work.append(row["adt"])
+                    # generic arguments of a workspace type with a derived impl are reached through its fields
+                    if impls.get(row["adt"], {}).get("ser") == "derived":
+                        return
             for c in row.get("c", []):
                 walk(types[c], depth + 1)
         for v in a["variants"]:
             for f in v["fields"]:
+                if any("serde" in at and BAD_ATTR.search(at) for at in f.get("attrs", [])):
+                    continue  # not serialised: what lies behind it does not travel (the skip itself is judged by R8a)
                 walk(types[f["ty"]])
-    return seen
+    return seen, leaves, impls
 
 
 def r8a(fb, rep):
@@ -52,16 +91,18 @@ def r8a(fb, rep):
     if ROOT not in fb.adts:
         rep.anchor_lost(R, ROOT)
         return
-    graph = _type_graph(fb, ROOT)
-    rep.floor(R, "workspace types in the precompiled-module graph", len(graph), 25)
+    graph, leaves, impls = _type_graph(fb, ROOT)
+    rep.floor(R, "workspace types with derived (de)serialisers in the precompiled-module graph", len(graph), 12)
     exempt = {(e["adt"], e["field"]): e["reason"] for e in table("serde_skip_ok.json")["exempt"]}
     n_fields = 0
     n_attr = 0
     for p, a in sorted(graph.items()):
+        if not a.get("ast_attrs_joined"):
+            rep.violation(R, "attrs-unavailable|%s" % p, "the AST attributes of %s could not be joined (rule would be blind)" % p, "%s:%s" % (a["file"], a["line"]))
         for v in a["variants"]:
             for at in v.get("attrs", []):
                 if "serde" in at and BAD_ATTR.search(at):
-                    rep.violation(R, "variant-skipped|%s|%s" % (p, v["name"]), "%s::%s carries %s" % (p, v["name"], at), "%s:%s" % (a["file"], a["line"]))
+                    rep.violation(R, "variant-skipped|%s|%s" % (p, v["name"]), "%s::%s carries %s" % (p, v["name"], at.strip()), "%s:%s" % (a["file"], a["line"]))
             for f in v["fields"]:
                 n_fields += 1
                 bad = [at for at in f.get("attrs", []) if "serde" in at and BAD_ATTR.search(at)]
@@ -71,31 +112,21 @@ def r8a(fb, rep):
                     if key in exempt:
                         rep.exception(R, "%s.%s" % key, exempt[key])
                     else:
-                        rep.violation(R, "field-skipped|%s|%s" % key, "%s.%s is dropped/defaulted by %s — a precompiled module loses it" % (p, f["name"], bad[0]),
+                        rep.violation(R, "field-skipped|%s|%s" % key, "%s.%s is dropped/defaulted by %s — a precompiled module loses it" % (p, f["name"], bad[0].strip()),
                                       "%s:%s" % (a["file"], a["line"]))
                 else:
-                    rep.ok(R, "%s.%s travels" % (p.rsplit("::", 1)[1], f["name"]) if n_fields % 9 == 0 else None)
-    rep.floor(R, "fields examined", n_fields, 80)
-    rep.floor(R, "serde field attributes seen (cfg_attr expanded)", n_attr, 15)
-    # both directions exist for every graph type that is (de)serialised by a workspace impl
-    ser = {}
-    de = {}
-    for im in fb.impls:
-        tr = im.get("trait") or ""
-        s = fb.impl_self_str(im)
-        base = s.split("<")[0]
-        if tr in ("serde_state::ser::SerializeState", "serde_core::ser::Serialize", "serde::ser::Serialize"):
-            ser.setdefault(base, []).append(im)
-        if tr in ("serde_state::de::DeserializeState", "serde_core::de::Deserialize", "serde::de::Deserialize"):
-            de.setdefault(base, []).append(im)
+                    rep.ok(R, "%s.%s travels" % (p.rsplit("::", 1)[1], f["name"]) if n_fields % 7 == 0 else None)
+    rep.floor(R, "fields examined", n_fields, 40)
+    rep.floor(R, "serde field attributes seen (cfg_attr expanded, read from the AST)", n_attr, 10)
+    # a derived impl in one direction needs the other direction
     for p in sorted(graph):
-        s_, d_ = p in ser, p in de
-        if s_ != d_:
-            rep.violation(R, "one-direction|%s" % p, "%s has %s but not %s" % (p, "Serialize" if s_ else "Deserialize", "Deserialize" if s_ else "Serialize"), "")
-        elif s_:
+        k = impls.get(p, {})
+        if ("ser" in k) != ("de" in k):
+            rep.violation(R, "one-direction|%s" % p, "%s derives only %s" % (p, "Serialize" if "ser" in k else "Deserialize"), "")
+        else:
             rep.ok(R, None)
     rep.extra["graph_types"] = sorted(graph)
-    rep.extra["graph_types_without_workspace_impl"] = sorted(p for p in graph if p not in ser and p not in de)
+    rep.extra["leaf_types_with_own_wire_format"] = {p: k for p, k in sorted(leaves.items())}
     # the key structures must be in the graph at all (anchor)
     for need in ("gluon_vm::compiler::CompiledModule", "gluon_vm::compiler::CompiledFunction", "gluon_vm::types::Instruction",
                  "gluon_vm::compiler::DebugInfo", "gluon_base::metadata::Metadata"):
